@@ -437,7 +437,10 @@ def _matchers(ck, P, cfg):
         only_remote = all(g == "flags" or g.endswith("early_antis") for g in guards) and any("early_antis" in g for g in guards)
         first = next((x for x in (ifs.children if ifs is not None else []) for x in x.walk() if x.id in f.cfg.pos), None)
         then_returns = ifs is not None and any(x.k == "ReturnStmt" for x in [k for k in ifs.children if k.k != "Null"][1].walk())
-        if ifs is not None and only_remote and then_returns and first is not None and f.cfg.dominates(first, disp[0]):
+        if ifs is not None and only_remote and "flags" not in guards:
+            ck.violated("C02.5", "early-check", c.where, "local events are matched against the early anti-messages too (guards: %s): a local event carries no sender word and an uninitialised "
+                        "sequence number, so it can be taken for the event a remote anti-message cancels and be dropped" % (txt or "none"), cfg)
+        elif ifs is not None and only_remote and then_returns and first is not None and f.cfg.dominates(first, disp[0]):
             ck.holds("C02.5", "early-check", c.where, "before an event is processed: if(%s && check_early_anti_messages(...)) return; the guards only skip messages that cannot have an early anti-message" % txt, cfg)
         else:
             ck.violated("C02.5", "early-check", c.where, "a remote event can be processed without consulting the early anti-message list (guards: %s)" % (txt or "none"), cfg)
